@@ -554,6 +554,21 @@ def roundtrip(run, root: Any, exp: List[Dict[str, Any]], feat: Dict[str, Any], c
     else:
         data = buf.getvalue()
     run.count('binary_exports' if binary else 'kv2_exports')
+    # the same graph exported again under the same configuration: byte-identical (nothing in the writer may remember a run)
+    try:
+        buf2 = io.BytesIO()
+        if binary:
+            root.export_binary(buf2, cfg['version'], fmt_name, fmt_ver, mode)
+        else:
+            root.export_kv2(buf2, fmt_name, fmt_ver, flat=cfg['flat'], unicode=mode, cull_uuid=cfg['cull'])
+        if buf2.getvalue() != data:
+            k = next((i for i, (a, b) in enumerate(zip(data, buf2.getvalue())) if a != b), min(len(data), len(buf2.getvalue())))
+            run.violation(f'{label}: exporting the same graph twice gives different bytes (first difference at offset {k})',
+                          key='export-not-repeatable', engine=engine, case=case)
+        run.count('repeated_exports')
+    except Exception as exc:
+        run.violation(f'{label}: the second export of the same graph raised {type(exc).__name__}: {exc}', key='export-not-repeatable',
+                      engine=engine, case=case)
     if binary and cfg['version'] < 3 and feat['time']:
         run.violation(f'{label}: a TIME attribute was written to a version that has no TIME type', key='time-written-before-v3',
                       engine=engine, case=case)
@@ -939,7 +954,7 @@ def main(run, shard=(0, 1)) -> None:
         name_attr_case(run)
     probe.report(run)
     probe.check_reached(run)
-    run.require('binary_parses', 'kv2_parses', 'real_file_roundtrips', 'independent_decodes_agree', 'to_kv1_calls', 'to_kv1_after_wire',
+    run.require('binary_parses', 'kv2_parses', 'real_file_roundtrips', 'repeated_exports', 'independent_decodes_agree', 'to_kv1_calls', 'to_kv1_after_wire',
                 'graphs_with_sharing', 'graphs_with_cycle', 'graphs_with_self_loop', 'graphs_with_nameless_elements', 'stub_occurrences', 'null_in_array_occurrences',
                 'empty_array_occurrences', 'scalar_matrix_occurrences', 'name_needs_escape_occurrences',
                 'unicode_string_array_occurrences', 'unicode_type_occurrences', 'ascii_mode_refused_non_ascii',
